@@ -22,7 +22,7 @@ ASSUMPTIONS = [
 BOUNDS = {"quick": "<=2 batteries: every missing-metric pattern and working subset, all values symbolic; range, monotone and scale invariance with complete data for 2 and 3 batteries",
           "thorough": "3 batteries for every clause incl. all missing patterns (budgeted)"}
 OUTSIDE = "more than 3 batteries; IEEE rounding; the fetcher/SendOnUpdate caching layers"
-BUDGET = {"quick": 300, "thorough": 1800}
+BUDGET = {"quick": 300, "thorough": 900}
 KEYS = [M.CAPACITY, M.SOC, M.SOC_LOWER_BOUND, M.SOC_UPPER_BOUND]
 SOC = SoCCalculator.__new__(SoCCalculator)
 CAP = CapacityCalculator.__new__(CapacityCalculator)
